@@ -1044,7 +1044,7 @@ Proof. intros d. destruct d; cbn [type_of]; intros H; try discriminate; vm_compu
 
 Theorem inferred_is_builtin_type : forall d, infer (f_infer facts_gen) d = spec_ity d.
 Proof.
-  fix IH 1. intros d. destruct d as [| | | | l | | l].
+  fix IH 1. intros d. destruct d as [| | | | l | | l | e].
   - cbn [infer]. rewrite (gen_infer_scalar DBool TBool eq_refl). reflexivity.
   - cbn [infer]. rewrite (gen_infer_scalar DInt TInt eq_refl). reflexivity.
   - cbn [infer]. rewrite (gen_infer_scalar DFloat TFloat eq_refl). reflexivity.
@@ -1053,6 +1053,7 @@ Proof.
     induction l as [|x r IHl]; [reflexivity|]. cbn [map]. f_equal; [apply IH | exact IHl].
   - cbn [infer]. rewrite (gen_infer_nonscalar DOther eq_refl). reflexivity.
   - cbn [infer spec_ity]. rewrite (gen_infer_nonscalar (DList l) eq_refl). destruct l as [|x r]; [reflexivity|]. f_equal. apply IH.
+  - cbn [infer spec_ity]. rewrite (gen_infer_nonscalar (DDict e) eq_refl). destruct e; reflexivity.
 Qed.
 
 (* ---------- main ---------- *)
